@@ -541,3 +541,66 @@ func wholesaleCallers(c *Ctx, ci *concInfo, setter *ssa.Function, pos token.Pos,
 	}
 	_ = n
 }
+
+// ruleSyncUpdate (C14-ORDER): the workspace's picture of the documents (its resolved include tree) is brought
+// up to date synchronously, on the dispatch goroutine, in the order of the notifications.  A function that
+// writes that tree must therefore not be reachable from a goroutine the server starts: updates made from
+// background goroutines are applied in scheduling order (an older text can overwrite a newer one for good)
+// and a request handled right after a notification is answered from the state before it.
+func ruleSyncUpdate(c *Ctx) {
+	ci := buildConc(c)
+	wpk := c.P.SSAPkg("internal/workspace")
+	isTree := func(t types.Type) bool { return typeHasSuffix(t, "include.ResolvedJournal") }
+	writesTree := map[*ssa.Function]token.Pos{}
+	for _, f := range ci.funcs {
+		if f.Pkg != wpk || ci.initFns[f] {
+			continue
+		}
+		for _, b := range f.Blocks {
+			for _, ins := range b.Instrs {
+				var addr ssa.Value
+				switch x := ins.(type) {
+				case *ssa.Store:
+					addr = x.Addr
+				case *ssa.MapUpdate:
+					if ld, ok := x.Map.(*ssa.UnOp); ok {
+						addr = ld.X
+					}
+				case *ssa.Call:
+					if bi, ok := x.Call.Value.(*ssa.Builtin); ok && bi.Name() == "delete" && len(x.Call.Args) > 0 {
+						if ld, ok := x.Call.Args[0].(*ssa.UnOp); ok {
+							addr = ld.X
+						}
+					}
+				}
+				for addr != nil {
+					fa, ok := addr.(*ssa.FieldAddr)
+					if !ok {
+						break
+					}
+					bt := fa.X.Type().Underlying().(*types.Pointer).Elem()
+					ft := fa.Type().Underlying().(*types.Pointer).Elem()
+					if isTree(bt) || (typeHasSuffix(bt, "workspace.Workspace") && isTree(ft)) {
+						if _, fresh := fa.X.(*ssa.Alloc); !fresh {
+							if _, seen := writesTree[f]; !seen {
+								writesTree[f] = ins.Pos()
+							}
+						}
+						break
+					}
+					addr = fa.X
+				}
+			}
+		}
+	}
+	var fs []*ssa.Function
+	for f := range writesTree {
+		fs = append(fs, f)
+	}
+	sort.Slice(fs, func(i, j int) bool { return funcName(fs[i]) < funcName(fs[j]) })
+	c.census("C14-ORDER", "workspace functions that write the resolved include tree", len(fs), 2)
+	for _, f := range fs {
+		c.check(!ci.reachG[f], "C14-ORDER", funcName(f), "the workspace tree is only updated on the dispatch goroutine", writesTree[f],
+			"not reachable from a goroutine started by the server", funcName(f)+" writes the workspace's include tree and is reachable from a goroutine the server starts: updates are then applied in scheduling order instead of notification order, and a request that follows a notification is answered from the state before it")
+	}
+}
